@@ -224,4 +224,15 @@ theorem innerFind_chain (T : Tree) (ws : List Tok) :
         simp only [List.cons_append, innerFind, stripFlags_cmdWord _ _ hw, hfn, argsMinusFirstX_cmdWord _ _ hw, hp]
         simpa using this
 
+/-! ## the last occurrence -/
+
+theorem lastOcc_append (n : Tok) (a b : List Occ) :
+    lastOcc n (a ++ b) = match lastOcc n b with | some x => some x | none => lastOcc n a := by
+  induction a with
+  | nil => simp [lastOcc]; cases lastOcc n b <;> rfl
+  | cons o os ih =>
+    obtain ⟨m, v⟩ := o
+    simp only [List.cons_append, lastOcc, ih]
+    cases lastOcc n b <;> rfl
+
 end GceTcb.Argv
